@@ -307,13 +307,18 @@ pub fn body_next(z: Zone, u: Unit, modulate: bool, nsel: i64, window: Option<(i6
     // current unit" - only agree under that reading; see DESIGN.md, C16).
     let start_utc = start_of_unit(&z, l, u) - off_now;
     let crosses = |a: i64, b: i64| z.t1 != z.t2 && ((a < z.t1 && b >= z.t1) || (a < z.t2 && b >= z.t2));
+    let month_ok = u != Unit::Month || month0_of(&z, l.div_euclid(86400) - z.jan1_days) as i64 + n <= 12;
+    // Whether the boundary clause applies is decided from the EXPECTED boundary, never from the
+    // implementation's answer (a wrong answer that happened to fall outside the zone table, e.g. a
+    // year late, used to switch the assertion off - found by a seeded change, DESIGN.md 9.5).
+    let exp = if month_ok { expected_local(&z, l, u, n, modulate) } else { l };
+    let exp_utc = exp - off_now;
+    let no_change_exp = !crosses(now, exp_utc) && offset_at_utc(&z, start_utc) == off_now && !crosses(start_utc, now);
     let no_change = !crosses(now, next_utc) && offset_at_utc(&z, start_utc) == off_now && !crosses(start_utc, now);
     // the zone model is only valid up to z.hi, except that January 1st of a later year lies in the
     // zone's "a" regime for every table zone (checked with the tz database by the native twin)
-    let in_model = next_utc < z.hi || u == Unit::Year;
-    let month_ok = u != Unit::Month || month0_of(&z, l.div_euclid(86400) - z.jan1_days) as i64 + n <= 12;
-    if no_change && in_model && month_ok {
-        let exp = expected_local(&z, l, u, n, modulate);
+    let in_model = exp_utc < z.hi || u == Unit::Year;
+    if no_change_exp && in_model && month_ok {
         #[cfg(not(kani))]
         if next_utc + off_now != exp {
             eprintln!("now={} l={} n={} next_utc={} exp_local={} got_local={}", now, l, n, next_utc, exp, next_utc + off_now);
